@@ -310,10 +310,11 @@ Record ka_case := mkKaCase {
   kc_ptimes : list N;                (* arrival time of every client ping of the first connection *)
   kc_pongs : list (option N);        (* when the broker sent the pong for ping j (None = never) *)
   kc_pids_ok : bool;                 (* client ping ids are even, distinct, increasing *)
-  kc_close : option N;               (* when the client closed the transport of the first connection *)
+  kc_close : option N;               (* when the client called Close on the transport of the first connection *)
   kc_echo : list N;                  (* request ids of the pongs the client sent, in order *)
   kc_disc_event : bool;              (* DisconnectedEventHandler fired *)
   kc_reconnect : bool;               (* a second ConnectRequest reached the broker *)
+  kc_recovered : option N;           (* when both the disconnected event and the second ConnectRequest had been seen *)
   kc_req_ok : bool;                  (* the ordinary request issued at the end of the window succeeded (true if none was issued) *)
   kc_announced : N * N               (* PingInterval / PingTimeout in the first ConnectRequest *)
 }.
@@ -440,7 +441,12 @@ Definition c15_ok (c : ka_case) : bool :=
                      | None => true
                      end
               end
-           && kc_disc_event c && kc_reconnect c                  (* recovery started *)
+           && kc_disc_event c && kc_reconnect c                  (* recovery started ... *)
+           && match kc_recovered c with                          (* ... within the bound, however long the
+                                                                    transport's Close takes *)
+              | Some r => r <=? T + I + TO + kc_slack c
+              | None => false
+              end
        | None =>
            (* still connected: the last ping is answered or its deadline (+slack) is not over *)
            match lastpong with
